@@ -9,8 +9,15 @@ def clipGeometryS (s e L own other : Int) (fwd : Bool) : Int := (max (0 : Int) s
 def clipGeometryE (s e L own other : Int) (fwd : Bool) : Int := (min own e)
 def extendGeometryS (s e L own other : Int) (fwd : Bool) : Int := (if fwd = true then s else (max (e - L) (0 : Int)))
 def extendGeometryE (s e L own other : Int) (fwd : Bool) : Int := (if fwd = true then (min (s + L) own) else e)
+def extendGenomeS (s e L own other : Int) (fwd : Bool) : Int := (if fwd = true then s else (max (e - L) (0 : Int)))
+def extendGenomeE (s e L own other : Int) (fwd : Bool) : Int := (if fwd = true then (min (s + L) own) else e)
+def locStart (s e : Int) (fwd : Bool) : Int := (if fwd = true then s else (e - (1 : Int)))
+def locStop (s e : Int) (fwd : Bool) : Int := (if fwd = false then s else (e - (1 : Int)))
+def locCenter (s e : Int) (fwd : Bool) : Int := ((s + e) / (2 : Int))
+def locStartU (s e : Int) (fwd : Bool) : Int := s
+def locCenterU (s e : Int) (fwd : Bool) : Int := ((s + e) / (2 : Int))
 /-- kernels that were really traced this run (the others fall back to the hand model's formula) -/
-def traced : List String := ["clipGenome", "clipGeometry", "extendGeometry"]
+def traced : List String := ["clipGenome", "clipGeometry", "extendGeometry", "extendGenome", "locStart", "locStop", "locCenter", "locStartU", "locCenterU"]
 def flankTable : List (Nat × Int × Int) := [(0, 0, 1), (1, 1, 2), (2, 2, 3), (3, 3, 4), (4, 4, 5), (5, 5, 6), (6, 6, 7)]
 def wsizeTable : List (Nat × Int × Int) := [(1, 0, 1), (2, 1, 1), (3, 1, 2), (4, 2, 2), (5, 2, 3), (6, 3, 3), (7, 3, 4), (8, 4, 4), (9, 4, 5), (10, 5, 5), (11, 5, 6), (12, 6, 6)]
 
